@@ -44,6 +44,15 @@ func runSolver(ctx context.Context, sp solverSpec, file string, sec int) solveOu
 	cmd.Stderr = &buf
 	cmd.Run()
 	out := buf.String()
+	// solvers may print warnings (e.g. about a dropped quantifier pattern) before the answer
+	var kept []string
+	for _, ln := range strings.Split(out, "\n") {
+		if strings.HasPrefix(ln, "WARNING:") {
+			continue
+		}
+		kept = append(kept, ln)
+	}
+	out = strings.Join(kept, "\n")
 	first := strings.TrimSpace(strings.SplitN(out, "\n", 2)[0])
 	ans := "unknown"
 	switch first {
@@ -83,6 +92,41 @@ func hashStr(s string) uint32 {
 
 // solve one obligation with the portfolio. budget in seconds.
 func solveObligation(c *Ctx, o *Obligation, budget int) {
+	if len(o.Cases) > 1 && !o.ExpectSat && os.Getenv("MLRVC_NOCASES") == "" {
+		solveCases(c, o, budget)
+		return
+	}
+	solveOne(c, o, budget)
+}
+
+// solveCases proves an exit obligation return site by return site. All cases proved: proved.
+// A refuted case: refuted, with that case's model. Otherwise the merged formulation is tried.
+func solveCases(c *Ctx, o *Obligation, budget int) {
+	t0 := time.Now()
+	all := true
+	for k, cs := range o.Cases {
+		sub := &Obligation{Name: fmt.Sprintf("%s@ret%d", o.Name, k+1), Kind: o.Kind, Guard: cs.Guard, Goal: cs.Goal, Pos: o.Pos, Func: o.Func, Obs: o.Obs}
+		solveOne(c, sub, budget)
+		if sub.Result == "refuted" {
+			o.Result, o.Solver, o.Model, o.RawOut, o.File = "refuted", sub.Solver+fmt.Sprintf("+ret%d/%d", k+1, len(o.Cases)), sub.Model, sub.RawOut, sub.File
+			o.TimeS = time.Since(t0).Seconds()
+			return
+		}
+		if sub.Result != "proved" {
+			all = false
+			break
+		}
+	}
+	if all {
+		o.Result, o.Solver, o.TimeS = "proved", fmt.Sprintf("cases(%d)", len(o.Cases)), time.Since(t0).Seconds()
+		o.File = oblFile(o.Name + "@ret1")
+		return
+	}
+	solveOne(c, o, budget)
+	o.TimeS = time.Since(t0).Seconds()
+}
+
+func solveOne(c *Ctx, o *Obligation, budget int) {
 	text := c.emitWith(o, o.Obs)
 	file := oblFile(o.Name)
 	os.MkdirAll(filepath.Dir(file), 0o755)
